@@ -17,20 +17,20 @@ CLAIMS = {
    note=COMMON_NOTE + "Assumed: bufio.Reader.ReadByte/UnreadByte stubs (octets delivered in order whatever the segmentation); the definitional axioms of the k-th-output-octet function outv.",
    design="3.C01", technique=T + "; loop invariant as simulation of a spec transducer"),
  "C02": dict(
-   text="Deductive proof: (a) end detection is the state component of the C01 simulation (only <CRLF>.<CRLF> or a leading .<CRLF> reaches END; nothing is read after END); (b) handleData ensures, on every path and whatever the backend stub did with the reader (read all, part, nothing; any result), that the spec transducer started at the 354 is in END at the stream position reached (or the connection failed), i.e. the next command is parsed exactly after the end marker. SMTP mode; the LMTP paths are covered by the same reader contract but their resynchronisation post is not yet under contract in this revision.",
+   text="Deductive proof: (a) end detection is the state component of the C01 simulation (only <CRLF>.<CRLF> or a leading .<CRLF> reaches END; nothing is read after END); (b) handleData ensures, on every path and whatever the backend stub did with the reader (read all, part, nothing; any result), that the spec transducer started at the 354 is in END at the stream position reached (or the connection failed), i.e. the next command is parsed exactly after the end marker. The LMTP paths (fallback and goroutine delivery) carry the same resynchronisation post; at the size limit the reader consumes nothing but the end marker (skipEndMarker contract).",
    note=COMMON_NOTE + "Assumed: Session.Data stub (backend reads any prefix of the reader and does not keep it), io.Copy stub (reads until error, terminates), bufio stubs.",
    design="3.C02", technique=T),
  "C03": dict(
    text="Deductive proof: representation invariant connInv(Conn) preserved by every command handler and by the command loop (loop invariant), hence after every command history; the ordering clauses of the property are the preconditions of the backend-callback stubs (Mail only when greeted and no transfer in progress, Rcpt only after accepted Mail and below the limit, Data only with >=1 accepted Rcpt, NewSession only without a session and with the greeting name already visible), checked at every real call site; refusal branches ensure 5xx and unchanged callback counters; transaction ends ensure sender/recipients discarded and Reset signalled.",
-   note=COMMON_NOTE + "Assumed: backend callbacks do not re-enter Conn.Close/Reject; NewSession returns a fresh non-nil session on success. LMTP-specific paths of DATA/BDAT are not yet under contract (the handlers are verified for SMTP mode).",
+   note=COMMON_NOTE + "Assumed: backend callbacks do not re-enter Conn.Close/Reject; NewSession returns a fresh non-nil session on success. Re-greeting (HELO/EHLO/LHLO accepted on an existing session) and STARTTLS end the transaction like RSET.",
    design="3.C03", technique=T + "; data-structure invariant + call-site preconditions on callback stubs"),
  "C05": dict(
    text="Deductive proof on handleBdat/discardChunk: framing post on every return path (declared size well-formed => stream position advanced by exactly the declared size, refusals included, or the connection failed; nothing read for a malformed command), clean close of the pipe only after a complete LAST chunk (call-site obligation), one final reply per command, line limit lifted during the copy and restored on every exit. Transparency of the payload is the io.Copy/LimitReader stub (no transformation).",
    note=COMMON_NOTE + "Assumed: io.Copy / io.LimitReader / io.Pipe stubs; strconv.ParseUint and strings.Fields as deterministic functions. Not decided: the line limiter counting payload octets that bufio read ahead together with the BDAT line.",
    design="3.C05", technique=T),
  "C06": dict(
-   text="Deductive proof: reader budget invariant delivered + n == limit (so never more than N octets over any sequence of reads), newDataReader takes the budget from MaxMessageBytes, ErrDataTooLarge only with an exhausted budget, SIZE > N refused before the Mail callback (stub precondition), BDAT accumulation bounded by N (connInv conjunct, over-limit chunk discarded and transaction reset).",
-   note=COMMON_NOTE + "Known finding (open): a DATA message of exactly N octets is refused (limit-transparency clause).",
+   text="Deductive proof: reader budget invariant delivered + n == limit (so never more than N octets over any sequence of reads), newDataReader takes the budget from MaxMessageBytes, ErrDataTooLarge only with an exhausted budget AND only when more of the message follows (a message of exactly N octets is accepted: limit-transparency clause, proved after fix f7f3907), SIZE > N refused before the Mail callback (stub precondition), BDAT accumulation bounded by N (connInv conjunct, over-limit chunk discarded and transaction reset).",
+   note=COMMON_NOTE + "Assumed: bufio Peek/Discard stubs (Peek of at most 3 octets below the buffer size). When the transport fails while the end marker is being looked for the reader reports ErrDataTooLarge rather than the I/O error.",
    design="3.C06", technique=T),
  "C07": dict(
    text="Deductive proof: Read returns io.EOF only in spec state END (network EOF becomes ErrUnexpectedEOF); the BDAT pipe is closed cleanly only after a complete LAST chunk (short chunk => error), every abort path (RSET, QUIT/Close, new EHLO, failed chunk, end of the command loop) closes it with a non-nil error; handleConn ensures no transfer is left open at exit.",
@@ -65,7 +65,7 @@ CLAIMS = {
    note=COMMON_NOTE + "The capability slice is tracked by a keyword-membership abstraction of slice literals/append/phi inside the generator (exact or fail closed). Assumed: AuthMechanisms stub.",
    design="3.C12", technique=T + "; keyword-membership abstraction for the capability list"),
  "C13": dict(
-   text="Deductive proof of the sequential kernel: createStatusCollector gives one slot per accepted recipient and a channel for every recipient; the emission loops of handleDataLMTP and handleBdat write exactly one final reply per accepted recipient (loop invariant replies == old + i) and the i-th reply is built from the value received from status[i] (receive-site obligation), in RCPT order; the non-LMTPSession fallback sets the single Data result for every recipient.",
+   text="Deductive proof of the sequential kernel: createStatusCollector gives one slot per accepted recipient and a channel for every recipient; fillRemaining fills every recipient's channel to capacity and the recover handlers of both delivery goroutines call it on the collector of THIS transfer (so a backend panic still answers every recipient); reset drops the collector with the transaction; the emission loops of handleDataLMTP and handleBdat write exactly one final reply per accepted recipient (loop invariant replies == old + i) and the i-th reply is built from the value received from status[i] (receive-site obligation), in RCPT order; the non-LMTPSession fallback sets the single Data result for every recipient.",
    note=COMMON_NOTE + "NOT decided (the larger half of the statement): deadlock freedom, attribution under every timing of SetStatus relative to the emission loop, the k-th-status-to-k-th-occurrence mapping for duplicate recipients (channel capacities are not under contract in this revision), backend panics.",
    design="3.C13", technique=T),
  "C14": dict(
@@ -85,7 +85,7 @@ CLAIMS = {
    note=COMMON_NOTE + "Assumed: ReadResponse stub. The receive-order obligation uses the call ordinal of readResponse inside Close.",
    design="3.C18", technique=T),
  "C17": dict(
-   text="Deductive proof on writeResponse/writeError against a format-record abstraction of PrintfLine: the reply code on the wire is the code given (the SMTPError's own code, else the call site's generic code), a set enhanced code is written verbatim, an unset one as class.0.0 for classes 2/4/5, absent only if explicitly absent. The clause 'enhanced code on every line of a multi-line reply' fails: known finding (continuation lines carry none, the client then returns a different error).",
+   text="Deductive proof on writeResponse/writeError against a format-record abstraction of PrintfLine: the reply code on the wire is the code given (the SMTPError's own code, else the call site's generic code), a set enhanced code is written verbatim, an unset one as class.0.0 for classes 2/4/5, absent only if explicitly absent. Every line of a multi-line reply is written in one of four forms, carries the reply code and - unless the code is explicitly absent - the same enhanced code (RFC 2034; proved after fix fd23e50, which the go-smtp client needs to return an equal SMTPError).",
    note=COMMON_NOTE + "Assumed: PrintfLine writes exactly the formatted line. Not covered in this revision: the client half (toSMTPErr / ReadResponse as inverse, bounded stand-in planned), message text equality line by line.",
    design="3.C17", technique=T),
  "C19": dict(
